@@ -46,6 +46,19 @@ func C10Fonts() []*Font {
 			cq(pt(R(30*d+1, d), R(150*d+1, 2*d)), pt(R(20*d-1, d), I(100)), pt(R(1, d), R(50*d+1, d)))}}}
 		out = append(out, NewFont(fmt.Sprintf("c10:coordinates over %d", d), notdef(), g))
 	}
+	// 3a. fractional coordinates of large magnitude: the quotient p/q must stay
+	// exact (or within 1/214) also where p approaches the 32-bit limit
+	for _, big := range []int64{1000, 65536, 1000000, 10000000, 20000000, 20070000, 20300000, 25000000, 100000000, 1000000000} {
+		for _, d := range []int64{2, 3, 4, 53, 106, 107} {
+			if big*d+1 > 2147483647 {
+				continue
+			}
+			g := NewGlyph("A", 0, 0, 0)
+			g.Contours = []Contour{{pt(R(big*d+1, d), I(2)), []Seg{
+				lq(R(big*d+1, d), R(-big*d+1, d)), lq(I(50), R(200*d-1, d)), lq(I(0), I(0))}}}
+			out = append(out, NewFont(fmt.Sprintf("c10:large coordinates about %d over %d", big, d), notdef(), g))
+		}
+	}
 	// 3b. the three curve forms with fractional deltas whose best quotient p/q is
 	// off by almost 1/214 in a known direction, on every subset of the free
 	// deltas: the encoder must measure every delta from the position the decoder
@@ -98,7 +111,9 @@ func C10Fonts() []*Font {
 	}
 	out = append(out, NewFont("c10:only .notdef", notdefBox()))
 	// 5. strings
-	for si, s := range append(append([]string{}, InterestingStrings...), "1.0\nend", "1.0\rend", "1.0\n%%CreationDate: Mon Jan 2 2006", "2\n3 4", "x\x0cend", "a\n", "%!PS-Adobe") {
+	for si, s := range append(append([]string{}, InterestingStrings...), "1.0\nend", "1.0\rend", "1.0\n%%CreationDate: Mon Jan 2 2006", "2\n3 4", "x\x0cend", "a\n", "%!PS-Adobe",
+		// control characters directly followed by digits (an escape must not run into them)
+		"Foundry.\x0c1999-2004", "\t1.0", "\x001", "\x1f7x", "\x7f0", "a\x0b12", "\b8", "\x01\x02\x03123", "\x0077", "\x07\x000") {
 		for field := 0; field < 6; field++ {
 			if si >= len(InterestingStrings) && field > 1 {
 				continue
